@@ -322,7 +322,7 @@ func TestC03(t *testing.T) {
 	}, c03CubeRun)
 	ev.Exhaustive("flag_cube_alphabet_2^15", true)
 	// 2. recipes x raw tapes
-	ev.Check(t, "c03_raw", ev.N(16000, 400000), func(t *rapid.T) c03Case {
+	ev.Check(t, "c03_raw", ev.N(64000, 800000), func(t *rapid.T) c03Case {
 		o := gen.CharOpts{MaxLen: 64, MaxReq: 4, LongTail: 2000}
 		if rapid.Bool().Draw(t, "small") {
 			o.Small = true
